@@ -845,19 +845,20 @@ func c14Check(cp *c14Case, e *c14Env) (fail *vlib.Failure, herr error) {
 	}
 	// the report: a line that mentions the checksum and names the table
 	out := e.log.String() + "\n" + e.sink.String()
-	reported := map[string]bool{}
+	reported := map[string]bool{}    // named on a line that mentions the checksum
+	mentioned := map[string]bool{}   // named on any log line (robust against re-wording of the report)
 	for _, line := range strings.Split(out, "\n") {
-		if !strings.Contains(strings.ToLower(line), "checksum") {
-			continue
-		}
 		for sig := range allSigs {
 			if strings.Contains(line, sig) {
-				reported[sig] = true
+				mentioned[sig] = true
+				if strings.Contains(strings.ToLower(line), "checksum") {
+					reported[sig] = true
+				}
 			}
 		}
 	}
 	for sig := range report {
-		if !reported[sig] {
+		if !mentioned[sig] {
 			diffs = append(diffs, fmt.Sprintf("the bad checksum of %q is not reported on the log", sig))
 		}
 	}
